@@ -228,6 +228,15 @@ let parse_op (toks : Stdlib.String.t list) : op =
   | ["dmg"; "pj"; "missing"] -> ODamage (DSetPj JMissing)
   | ["dmg"; "pj"; "garbage"] -> ODamage (DSetPj JGarbage)
   | ["dmg"; "pj"; k] -> ODamage (DSetPj (try Hashtbl.find snaps_pj (int_of_string k) with Not_found -> JMissing))
+  | ["dmg"; "sjq"; rel; evs] ->
+      let ev t = match Stdlib.String.split_on_char '.' t with
+        | [k; n; app; r; m] ->
+            { e_kind = (match k with "S" -> EvInstallSuccess | "F" -> EvInstallFailure | _ -> EvDownload);
+              e_num = num_tok n; e_app = cstring_of (str_tok app); e_rel = cstring_of (str_tok r);
+              e_msg = (match m with "i" -> MsgInit | "e" -> MsgEngine | _ -> MsgNone) }
+        | _ -> failwith ("bad event token " ^ t) in
+      let l = List.filter (fun x -> x <> "" && x <> "-") (Stdlib.String.split_on_char ',' evs) in
+      ODamage (DSetSj (JOk { rel = cstring_of (str_tok rel); evq = List.map ev l }))
   | ["dmg"; "sj"; "missing"] -> ODamage (DSetSj JMissing)
   | ["dmg"; "sj"; "garbage"] -> ODamage (DSetSj JGarbage)
   | ["dmg"; "sj"; k] -> ODamage (DSetSj (try Hashtbl.find snaps_sj (int_of_string k) with Not_found -> JMissing))
@@ -427,6 +436,15 @@ let () =
             | None -> print_endline "apply=err"
             | Some b -> let s = ostring_of_bytes b in
               Printf.printf "apply=ok:%d.%s\n" (Stdlib.String.length s) (hex_o (sha256_o s)))
+       | ["chunked"; spec; o; p] ->
+           (* the Reader driven with the cyclic buffer-size schedule [spec], scratch buffer 4096 *)
+           let sz = Array.of_list (List.map int_of_string (Stdlib.String.split_on_char ',' spec)) in
+           let rec int_of_nat = function O -> 0 | S m -> 1 + int_of_nat m in
+           let sizes (i : nat) = n_of_int sz.((int_of_nat i - 1) mod Array.length sz) in
+           (match apply_patch_chunked (n_of_int 4096) sizes (bytes_of_ostring (blob_tok o)) (bytes_of_ostring (blob_tok p)) with
+            | None -> Printf.printf "chunked:%s:%s=err\n" p spec
+            | Some b -> let s = ostring_of_bytes b in
+              Printf.printf "chunked:%s:%s=ok:%d.%s\n" p spec (Stdlib.String.length s) (hex_o (sha256_o s)))
        | ["sha"; b] -> print_endline ("sha=" ^ hex_o (sha256_o (blob_tok b)))
        | ["wfm"; o; nw; ms] ->
            let b = wf_matches (bytes_of_ostring (blob_tok o)) (bytes_of_ostring (blob_tok nw)) (parse_matches ms) in
